@@ -280,6 +280,10 @@ func runPipe(vec map[string]interface{}) map[string]interface{} {
 		hc.GateRecv = spec.recvSite
 		hc.GateOrder = intList(gList(vec, "order"))
 		hc.GateWait = 1500 * time.Millisecond
+		if o1 := gList(vec, "order1"); len(o1) > 0 && cmd == "samvar" {
+			// two worker stages: impose the stage-1 hand-off order as well
+			hc.Gates = []vhook.Gate{{Site: "sam.blockToPairwiseAlignment", Order: intList(o1), Release: spec.readySite}}
+		}
 	case "jitter":
 		hc.Jitter = int64(gIntD(vec, "jseed", 1))
 	}
